@@ -116,6 +116,36 @@ def parsedTokens (p : Parsed D) : String :=
     | some (.atomLine n l k) => [s!"E AT {n} {l} {k}"]
   " ".intercalate (g ++ b)
 
+/-! ### bulk operations: the generated crystal families of `harness/c14drv.c: gen_many`
+
+`addmany <arr> <count> <seed>` is, by definition, the `count` single operations `add <arr> L <genMany seed i>` (i = 0 … count-1) issued one
+after the other; the driver runs them through the unchanged `cstep` / `astep` and reports how many were accepted, the index of the first
+refused one and its error.  `readmany <arr> <k> <n> <seed>` is a `read` of a file that holds the crystals `genMany seed 0 … n-1`
+(model mode: whatever the reader model makes of the bytes of `f<k>.dat`; spec mode: the generated list).
+Integer arithmetic and dyadic fractions only: the doubles are bit-identical with the C harness'. -/
+
+def pad5 (n : Nat) : String :=
+  let s := toString n
+  String.ofList (List.replicate (5 - s.length) '0') ++ s
+
+def genMany (seed i : Nat) : Crystal D :=
+  let perm := (i * 7919 + 13 * seed) % 10007
+  let f (n : Nat) : Float := Float.ofNat n
+  let b (x : Float) : D := x.toBits
+  let ang : Float × Float × Float :=
+    if perm % 3 == 0 then (90, 90, 90) else if perm % 3 == 1 then (90, 90, 120)
+    else (f (80 + i % 15), f (85 + perm % 9), f (95 + i % 11))
+  let cell : Cell D := ⟨b (f (3 + perm % 11) + 0.25 * f (i % 4)), b (f 4 + 0.5 * f (i % 7)), b (f (5 + perm % 5)), b ang.1, b ang.2.1, b ang.2.2⟩
+  let atoms := (List.range (1 + i % 4)).map (fun j =>
+    (⟨((1 + (perm + 13 * j) % 92 : Nat) : Int), b (if j % 2 == 1 then 0.5 else 1.0), b (f ((i + j) % 8) / 8.0), b (f (perm % 4) / 4.0), b (f (j % 2) * 0.5)⟩ : Atom D))
+  ⟨s!"M{seed % 1000}_{pad5 perm}", cell, b 0.0, atoms⟩
+
+/-- an operation line of a history as the driver executes it -/
+inductive DOp where
+  | one (op : Op D)
+  | many (arr : ARef) (cs : List (Crystal D))
+  | stop (why : String)
+
 /-! ### parsing the history syntax -/
 
 def parseAtoms : Nat → List String → List (Atom D) × List String
@@ -162,6 +192,7 @@ def parseOp : List String → Option (Op D)
   | "read" :: a :: "NULLNAME" :: _ => some (.read (parseARef a) .nullName)
   | "read" :: a :: "NOFILE" :: _ => some (.read (parseARef a) .cannotOpen)
   | "read" :: a :: _ :: ts => some (.read (parseARef a) (.content (parseEntries ts [])))
+  | ["readmany", a, _, n, seed] => some (.read (parseARef a) (.content ⟨(List.range n.toNat!).map (genMany seed.toNat!), none⟩))
   | ["get", a, n] => some (.get (parseARef a) (if n == "~" then none else some n))
   | ["list", a] => some (.list (parseARef a))
   | "copy" :: ts => some (.copy (parseSrc ts))
@@ -298,7 +329,7 @@ def runHistory (cache : IO.Ref (Option (String × List (Crystal D)))) (mode : St
   let lines := (txt.splitOn "\n").map (fun l => (l.splitOn " ").filter (· ≠ ""))
   let mut pool : List String := []
   let mut builtin : List (Crystal D) := []
-  let mut ops : List (List String × Option (Op D) × String) := []
+  let mut ops : List (List String × DOp) := []
   for ts in lines do
     match ts with
     | [] => pure ()
@@ -318,24 +349,27 @@ def runHistory (cache : IO.Ref (Option (String × List (Crystal D)))) (mode : St
       | none =>
         let b ← parseBuiltinFile bp
         cache.set (some (bp, b)); builtin := b
+    | ["addmany", a, count, seed] =>
+      ops := ops ++ [(ts, .many (parseARef a) ((List.range count.toNat!).map (genMany seed.toNat!)))]
     | t :: _ =>
       if t.startsWith "#" then pure ()
       else match parseOp ts with
         | some op =>
           -- model mode: the content of a crystal file is what the reader model makes of its bytes
           match mode, ts with
-          | "model", "read" :: a :: k :: _ =>
-            if k == "NULLNAME" || k == "NOFILE" then ops := ops ++ [(ts, some op, "")]
+          | "model", rd :: a :: k :: _ =>
+            if rd != "read" && rd != "readmany" then ops := ops ++ [(ts, .one op)]
+            else if k == "NULLNAME" || k == "NOFILE" then ops := ops ++ [(ts, .one op)]
             else
               let dir := (System.FilePath.mk path).parent.getD (System.FilePath.mk ".")
               match ← readBytes (dir / s!"f{k}.dat") with
-              | none => ops := ops ++ [(ts, some (.read (parseARef a) .cannotOpen), "")]
+              | none => ops := ops ++ [(ts, .one (.read (parseARef a) .cannotOpen))]
               | some text =>
                 match Reader.readText text with
-                | .parsed p => ops := ops ++ [(ts, some (.read (parseARef a) (.content (parsedToD p))), "")]
-                | .ub u => ops := ops ++ [(ts, none, "ub " ++ ubStr u)]
-                | .unsupported => ops := ops ++ [(ts, none, "unsupported")]
-          | _, _ => ops := ops ++ [(ts, some op, "")]
+                | .parsed p => ops := ops ++ [(ts, .one (.read (parseARef a) (.content (parsedToD p))))]
+                | .ub u => ops := ops ++ [(ts, .stop ("ub " ++ ubStr u))]
+                | .unsupported => ops := ops ++ [(ts, .stop "unsupported")]
+          | _, _ => ops := ops ++ [(ts, .one op)]
         | none => IO.println s!"bad-op {ts}"
   let out ← IO.getStdout
   if mode == "model" then
@@ -343,39 +377,78 @@ def runHistory (cache : IO.Ref (Option (String × List (Crystal D)))) (mode : St
     let base := σ.mem.live
     let mut fl : Flags := {}
     let mut k := 0
-    for (ts, op?, why) in ops do
-      let some op := op? | do
+    for (ts, dop) in ops do
+      match dop with
+      | .stop why =>
         out.putStrLn s!"op {k} {opName ts} {why}"
         return
-      match cstep volF σ op with
-      | .error u =>
-        out.putStrLn s!"op {k} {opName ts} ub {ubStr u}"
-        return
-      | .ok (σ', o) =>
-        σ := σ'
-        fl := updFlags fl σ op
-        out.putStrLn s!"op {k} {opName ts} ret={retStr o.ret}{errStr o.err}"
-        match observeModel σ fl pool base with
+      | .many arr cs =>
+        -- the single additions, one after the other, through the unchanged model
+        let mut added := 0
+        let mut first : Int := -1
+        let mut ferr : Option Err := none
+        let mut idx : Nat := 0
+        for c in cs do
+          match cstep volF σ (.add arr (.lit c)) with
+          | .error u =>
+            out.putStrLn s!"op {k} {opName ts} ub {ubStr u}"
+            return
+          | .ok (σ', o) =>
+            σ := σ'
+            if o.ret == .int 1 && o.err.isNone then added := added + 1
+            else if first < 0 then
+              first := idx
+              ferr := o.err
+          idx := idx + 1
+        fl := updFlags fl σ (.list arr)
+        out.putStrLn s!"op {k} {opName ts} ret={added}/{first}{errStr ferr}"
+      | .one op =>
+        match cstep volF σ op with
         | .error u =>
-          out.putStrLn s!"observe ub {ubStr u}"
+          out.putStrLn s!"op {k} {opName ts} ub {ubStr u}"
           return
-        | .ok ls => for l in ls do out.putStrLn l
+        | .ok (σ', o) =>
+          σ := σ'
+          fl := updFlags fl σ op
+          out.putStrLn s!"op {k} {opName ts} ret={retStr o.ret}{errStr o.err}"
+      match observeModel σ fl pool base with
+      | .error u =>
+        out.putStrLn s!"observe ub {ubStr u}"
+        return
+      | .ok ls => for l in ls do out.putStrLn l
       k := k + 1
     out.putStrLn "end"
   else
     let mut s : AState D := initAbs builtin
     let b0 := builtin.length
     let mut k := 0
-    for (ts, op?, _) in ops do
-      let some op := op? | return
-      match astep volF bcap s op with
-      | none =>
-        out.putStrLn s!"op {k} {opName ts} illegal"
-        return
-      | some (s', o) =>
-        s := s'
-        out.putStrLn s!"op {k} {opName ts} ret={retStr o.ret} err={if o.failed then "+" else "-"}"
-        for l in observeSpec s b0 pool do out.putStrLn l
+    for (ts, dop) in ops do
+      match dop with
+      | .stop _ => return
+      | .many arr cs =>
+        let mut added := 0
+        let mut first : Int := -1
+        let mut idx : Nat := 0
+        for c in cs do
+          match astep volF bcap s (.add arr (.lit c)) with
+          | none =>
+            out.putStrLn s!"op {k} {opName ts} illegal"
+            return
+          | some (s', o) =>
+            s := s'
+            if o.ret == .int 1 && !o.failed then added := added + 1
+            else if first < 0 then first := idx
+          idx := idx + 1
+        out.putStrLn s!"op {k} {opName ts} ret={added}/{first} err={if first < 0 then "-" else "+"}"
+      | .one op =>
+        match astep volF bcap s op with
+        | none =>
+          out.putStrLn s!"op {k} {opName ts} illegal"
+          return
+        | some (s', o) =>
+          s := s'
+          out.putStrLn s!"op {k} {opName ts} ret={retStr o.ret} err={if o.failed then "+" else "-"}"
+      for l in observeSpec s b0 pool do out.putStrLn l
       k := k + 1
     out.putStrLn "end"
 
